@@ -178,9 +178,13 @@ def run_wb(case):
     extra_subs = rnd2.choice([3, 5, 8]) if rnd2.random() < .06 else 0        # more than the usual handful of windows
     for i in range(rnd.randint(0, 5) + extra_subs):
         sparse = rnd.random() < .3
+        small = False
         if sparse:
             sdw = sg = rnd.choice([x for x in (8, 16, 32, 64) if x <= gran])
             saw = rnd.randint(min(gb, max(0, aw)), max(0, aw)) if aw else 0
+            small = gb > 0 and rnd2.random() < .12
+            if small:
+                saw = rnd2.randint(0, gb - 1)      # a sparse window smaller than one bus word: still at most one subordinate per word
         else:
             sdw, sg = dw, gran
             saw = rnd.randint(0, aw)
@@ -200,6 +204,16 @@ def run_wb(case):
                 dec.add(sb, sparse=sparse, name=f"s{i}", addr=(rnd.randrange(1 << maw_dec) >> unit) << unit)
                 stats["explicit"] += 1
             subs.append((sb, sparse, sf, maw))
+            if small and rnd2.random() < .7:
+                # … and a second one right behind it, in the same bus word
+                sb2 = wishbone.Interface(addr_width=saw, data_width=sdw, granularity=sg, features=spelled(sf), path=(f"sub{i}b",))
+                sb2.memory_map = MemoryMap(addr_width=maw, data_width=sg)
+                try:
+                    dec.add(sb2, sparse=True, name=f"s{i}b")
+                    subs.append((sb2, True, sf, maw))
+                    stats["sparse"] += 1
+                except ValueError:
+                    pass
             _dup_after(rnd2, dec, stats, lambda: wishbone.Interface(addr_width=saw, data_width=sdw, granularity=sg, features=sf, path=(f"dup{i}",)),
                        sb.memory_map, sparse=sparse)
             stats["sparse"] += int(sparse)
